@@ -317,7 +317,7 @@ Qed.
 (* all-ones base followed by a non-zero width is refused (assert) *)
 Theorem dec_col_missing_base_nonzero_width w wd n t :
   (2 <= w <= 64)%Z -> (1 <= wd <= 63)%Z ->
-  dec_col_num w n (ones (Z.to_nat w) ++ to_bits 6 (Z.to_N wd) ++ t) = Err EAssert.
+  dec_col_num w n (ones (Z.to_nat w) ++ to_bits 6 (Z.to_N wd) ++ t) = Err EBadColumn.
 Proof.
   intros Hw Hwd. unfold dec_col_num.
   rewrite <- to_bits_ones_Z by lia.
@@ -840,11 +840,11 @@ Proof.
     (let* (bw, r2) := take_bits 6 r1 in
      match N.to_nat (of_bits bw) with
      | O => Ok (repeat (if opt_is_none m then None else Some (of_bits b0)) n, r2)
-     | S _ as nb => if opt_is_none m then Err EAssert else spec_incs nb (of_bits b0) n r2
+     | S _ as nb => if opt_is_none m then Err EBadColumn else spec_incs nb (of_bits b0) n r2
      end) =
     (let* (nd, r2) := read_uint NBITS_FOR_NBITS_DIFF r1 in
      match (if opt_is_none m then None else Some (of_bits b0)) with
-     | None => if (nd =? 0)%N then Ok (repeat None n, r2) else Err EAssert
+     | None => if (nd =? 0)%N then Ok (repeat None n, r2) else Err EBadColumn
      | Some m0 => if (nd =? 0)%N then Ok (repeat (Some m0) n, r2) else dec_incs_num nd m0 n r2
      end)).
   { intros m. rewrite read_uint6.
@@ -1384,7 +1384,7 @@ Proof. split; [|split]; vm_compute; reflexivity. Qed.
    the value 2^w - 1, which is the encoding of "missing". *)
 Example allones_value_with_missing_is_refused :
   col_dom_num 3 false [None; Some 7]%Z = false /\
-  (let* o := enc_col_num 3 false [None; Some 7]%Z [] in dec_col_num 3 2 o) = Err EAssert /\
+  (let* o := enc_col_num 3 false [None; Some 7]%Z [] in dec_col_num 3 2 o) = Err EBadColumn /\
   (let* o := enc_fields_num 3 [None; Some 7]%Z [] in dec_fields_num 3 2 o) = Ok ([None; None], []).
 Proof. split; [|split]; vm_compute; reflexivity. Qed.
 
